@@ -162,6 +162,7 @@ func cmdAll(args []string) int {
 	root := fs.String("root", "/repo", "repository root")
 	verbose := fs.Bool("v", false, "print every non-discharged obligation")
 	only := fs.String("only", "", "comma-separated property ids")
+	list := fs.String("list", "", "also print discharged obligations whose key contains this text")
 	fs.Parse(args)
 	p, err := Load(*root, cfgDefault)
 	if err != nil {
@@ -186,6 +187,9 @@ func cmdAll(args []string) int {
 			switch o.Status {
 			case stDischarged:
 				d++
+				if *list != "" && strings.Contains(o.Key, *list) {
+					fmt.Printf("   ok        %s  %s  %s\n", o.Key, o.Pos, o.Detail)
+				}
 			case stViolated:
 				if kf != nil && kf.match(id, o.Key) != nil {
 					k++
